@@ -434,6 +434,35 @@ Theorem C16_threaded_instances : forall (gstate value req : Type) (draw : req ->
 Proof. exact history_threaded_instances. Qed.
 Print Assumptions C16_threaded_instances.
 
+(* histories compose: running h1 ++ h2 is running h1 and then h2 from the state h1 left, so every theorem stated for objects
+   that exist when a history starts applies to any suffix of a longer history ... *)
+Theorem C16_history_compose : forall (gstate value req : Type) (draw : req -> gstate -> value * gstate) (seed : Z -> gstate)
+    (h1 h2 : list (event gstate value req)) (g : gstate) (insts : list gstate),
+  run_hist gstate value req draw seed (h1 ++ h2) g insts =
+  (fst (fst (run_hist gstate value req draw seed h1 g insts)) ++
+     fst (fst (run_hist gstate value req draw seed h2 (snd (fst (run_hist gstate value req draw seed h1 g insts))) (snd (run_hist gstate value req draw seed h1 g insts)))),
+   snd (fst (run_hist gstate value req draw seed h2 (snd (fst (run_hist gstate value req draw seed h1 g insts))) (snd (run_hist gstate value req draw seed h1 g insts)))),
+   snd (run_hist gstate value req draw seed h2 (snd (fst (run_hist gstate value req draw seed h1 g insts))) (snd (run_hist gstate value req draw seed h1 g insts)))).
+Proof. exact run_hist_app. Qed.
+Print Assumptions C16_history_compose.
+
+(* ... in particular to an object from the moment the caller creates it: RandomState(s) created after ANY prefix h1 and then
+   used by the calls of h2 sees exactly what RandomState(s) threaded through these calls alone sees -- a function of s and
+   the calls only -- and ends in that state, whatever h1 did and whatever else h2 contains.  Two generators seeded
+   identically, created anywhere in any two processes and given the same calls, therefore agree step by step *)
+Theorem C16_new_instance_thread : forall (gstate value req : Type) (draw : req -> gstate -> value * gstate) (seed : Z -> gstate)
+    (h1 h2 : list (event gstate value req)) (g : gstate) (insts : list gstate) (s : Z),
+  let k := length (snd (run_hist gstate value req draw seed h1 g insts)) in
+  forallb (fun c => global_free_w (snd c)) (calls_on gstate value req k h2) = true ->
+  nth_error (snd (run_hist gstate value req draw seed (h1 ++ ENew s :: h2) g insts)) k =
+    Some (snd (thread gstate value req draw seed (seed s) (calls_on gstate value req k h2))) /\
+  outcomes_on gstate value req k h2
+    (fst (fst (run_hist gstate value req draw seed h2 (snd (fst (run_hist gstate value req draw seed h1 g insts)))
+                        (snd (run_hist gstate value req draw seed h1 g insts) ++ [seed s])))) =
+    fst (thread gstate value req draw seed (seed s) (calls_on gstate value req k h2)).
+Proof. exact history_new_instance_thread. Qed.
+Print Assumptions C16_new_instance_thread.
+
 (* FUNCTIONS WITHOUT RANDOM CHOICES in histories: a call of a draw-free skeleton, anywhere in any history and whatever
    random_state is (None and the global object included), draws nothing from any generator and leaves the global
    generator exactly as it found it ... *)
@@ -692,3 +721,17 @@ Example C16_source_analysis_accepts_handwritten :
   forallb (fun e => forallb (fun o => pglobal_free (embed (skeleton e o)) && global_free_w (skeleton e o)) opt_grid) seedable_eps = true /\
   forallb (fun e => forallb (fun o => implb (always_checks e) (pmust_check (embed (skeleton e o)))) opt_grid) seedable_eps = true.
 Proof. vm_compute. repeat split; reflexivity. Qed.
+
+(* an object created in the middle of a history: after an unseeded call, a re-seeding of the global generator and the creation
+   of another object, RandomState(3) is created and used twice; it ends where RandomState(3) threaded through the two calls
+   alone ends, which is not where it started *)
+Example C16_new_instance_thread_example :
+  let s1 := skeleton E_cp_regressor ex_opts in let s2 := skeleton E_parafac ex_opts in
+  let h1 := [ECall toy_interp s2 RNone; EEnv (fun g => (g + 5)%Z); ENew 9%Z] in
+  let h2 := [ECall toy_interp s1 (RInst 1); ECall toy_interp s2 (RInt 4%Z); ECall toy_interp s2 (RInst 1); ECall toy_interp s1 (RInst 0)] in
+  length (snd (run_hist Z Z nat toy_draw toy_seed h1 0%Z [])) = 1 /\
+  length (calls_on Z Z nat 1 h2) = 2 /\
+  nth_error (snd (run_hist Z Z nat toy_draw toy_seed (h1 ++ ENew 3%Z :: h2) 0%Z [])) 1 =
+    Some (snd (thread Z Z nat toy_draw toy_seed (toy_seed 3%Z) (calls_on Z Z nat 1 h2))) /\
+  snd (thread Z Z nat toy_draw toy_seed (toy_seed 3%Z) (calls_on Z Z nat 1 h2)) <> toy_seed 3%Z.
+Proof. vm_compute. repeat split; try reflexivity; discriminate. Qed.
